@@ -82,9 +82,14 @@ META = {
                   'C03/C04\'s invariant.',
     'rule': 'statuslib histories (4-14 ops over 1-4 tasks, 1-3 source files, target->file_dep and result_dep edges) '
             'with a perturbation suffix (touch / edit / delete of a dependency or target, checker switch, ignore, '
-            'redefinition) before the last probe, 1-2 probe points per history, each probe = 25-35 read-only command '
+            'redefinition; ignore of a whole group followed by forget / reset-dep of one sub-task) before the last probe; 40% of '
+            'the multi-task histories put some tasks under a group task g as sub-tasks g:t<i> (a naming layer: model and '
+            'history keep talking about task i); clean attributes vary over 16 kinds (targets, cmd, python callables with '
+            '/ without a dryrun parameter: plain, **kwargs, *args, defaults, partials, callable objects), 1-2 probe points per history, each probe = 25-35 read-only command '
             'lines on copies + one oracle run; exhaustive tier: every word of length <= 2 (quick) / 3 (thorough) over a '
-            '12-letter perturbation alphabet after a successful run of a task with two dependencies and a target; '
+            '12-letter perturbation alphabet after a successful run of a task with two dependencies and a target, and over '
+            'an 8-letter alphabet on two sub-tasks of one group (ignore group / one, forget one / other, touch, run, checker, '
+            'reset-dep); '
             'non-trivial = some task shown not-run and some task shown run/error over the probes of the case, or a '
             'documented removal happened; distinct = distinct rendered history incl. backend, checker, probes',
     'assumptions': ['mtimes are set by the harness from an integer clock; md5 is treated as an injective content id',
